@@ -244,9 +244,7 @@ func forFor(f *forExpander) forStateFn {
 	}
 
 	f.forLineLabelsToWrite = make([]string, len(f.forLineLabels))
-	for i, label := range f.forLineLabels {
-		f.forLineLabelsToWrite[i] = fmt.Sprintf("__for_%s_%s", f.forCountLabel, label)
-	}
+	copy(f.forLineLabelsToWrite, f.forLineLabels)
 
 	f.forCount = val
 	f.forIndex = 0 // should not be necessary
@@ -295,11 +293,11 @@ func forInnerLabels(f *forExpander) forStateFn {
 				return forInnerEmitLabels
 			}
 		} else if f.nextToken.IsOp() {
-			if f.forLineLabelsToWrite != nil {
-				for i, label := range f.forLineLabelsToWrite {
+			if f.forLineLabelsToWrite != nil && f.forCount > 0 {
+				// the labels as written: they name the first instruction of the
+				// block for references from inside and from outside of it
+				for _, label := range f.forLineLabelsToWrite {
 					f.tokens <- token{tokText, label}
-					// the label as written, for references from outside the block
-					f.tokens <- token{tokText, f.forLineLabels[i]}
 				}
 				f.forLineLabelsToWrite = nil
 			}
@@ -353,24 +351,17 @@ func forRof(f *forExpander) forStateFn {
 		f.next()
 	}
 
+	if f.forCount <= 0 && len(f.forLineLabels) > 0 {
+		return forCarryLabels
+	}
+
 	for i := 1; i <= f.forCount; i++ {
 		for _, tok := range f.forContent {
 			if tok.typ == tokText {
 				if tok.val == f.forCountLabel {
 					f.tokens <- token{tokNumber, fmt.Sprintf("%d", i)}
 				} else {
-					found := false
-					for _, label := range f.forLineLabels {
-						forLabel := fmt.Sprintf("__for_%s_%s", f.forCountLabel, label)
-						if tok.val == label {
-							f.tokens <- token{tokText, forLabel}
-							found = true
-							break
-						}
-					}
-					if !found {
-						f.tokens <- tok
-					}
+					f.tokens <- tok
 				}
 			} else {
 				f.tokens <- tok
@@ -378,6 +369,34 @@ func forRof(f *forExpander) forStateFn {
 		}
 	}
 
+	return forEmitConsumeStream
+}
+
+// forCarryLabels runs after a labelled block that emitted nothing: its labels name
+// whatever instruction comes next, so they are handed on to the next line
+func forCarryLabels(f *forExpander) forStateFn {
+	switch f.nextToken.typ {
+	case tokNewline, tokComment:
+		return f.emitConsume(forCarryLabels)
+	case tokText:
+		own := 0
+		for f.nextToken.typ == tokText && !f.nextToken.IsOp() && !f.nextToken.IsPseudoOp() {
+			f.forLineLabels = append(f.forLineLabels, f.nextToken.val)
+			own++
+			f.next()
+			for f.nextToken.typ == tokColon {
+				f.next()
+			}
+		}
+		if own == 0 && f.nextToken.typ == tokText && strings.ToLower(f.nextToken.val) == "for" {
+			// the next block has no counter name: give it one, or the
+			// last label handed on would be taken for its counter
+			f.forLineLabels = append(f.forLineLabels, "__for_anon_"+f.forCountLabel)
+		}
+		for _, label := range f.forLineLabels {
+			f.tokens <- token{tokText, label}
+		}
+	}
 	return forEmitConsumeStream
 }
 
